@@ -47,8 +47,18 @@ def exec_stack(ops, stats=None):
     sparse = any(op[0] == "obs" for op in ops)
     if sparse:
         ops = list(ops) + [["obs", 63]]
+    # wall-clock watchdog for the huge histories only: how FAST an implementation is on a
+    # 100 000-item stack is not C09's subject (a persistent linked-list Stack indexes in O(n));
+    # a history that takes too long is abandoned and counted, never judged, never an error
+    import time as _time  # noqa: PLC0415
+
+    t_end = _time.monotonic() + 20.0 if len(ops) > 2000 else None
     for i, op in enumerate(ops):
         name = op[0]
+        if t_end is not None and not i & 1023 and _time.monotonic() > t_end:
+            if stats is not None:
+                stats["abandoned_slow"] = stats.get("abandoned_slow", 0) + 1
+            return None
         try:
             if name == "obs":
                 mask = op[1]
@@ -117,7 +127,14 @@ def exec_stack(ops, stats=None):
                 continue
             # ---- observations after every step
             n = len(m)
-            if n > 48 and name in ("push", "pop", "peek") and i % (8 if n < 512 else 128 if n < 4096 else 4096):
+            if n > 4096 and name in ("push", "pop", "peek") and i % 4096:
+                # (only what is O(1) in any representation, most of the time)
+                if s.peek() != m[-1] or (not i % 64 and len(s) != n):
+                    return _viol("stack", f"top-differs-after-{name}", i, op, {"expected_len": n, "expected_top": m[-1]}, ops)
+                if stats is not None:
+                    stats["steps"] += 1
+                continue
+            if n > 48 and name in ("push", "pop", "peek") and i % (8 if n < 512 else 128):
                 # large stacks (the `big` histories): push/pop/peek only touch the top, so most of
                 # them are observed through len, emptiness, both ends and a window below the top;
                 # every eighth step and every other operation is observed in full
@@ -921,6 +938,7 @@ def run_batch(job) -> dict:
             if c is not None:
                 abstract.add(c)
     stats = {
+        "abandoned_slow_histories": st.get("abandoned_slow", 0),
         "histories": {subject: n_hist},
         "steps": {subject: st["steps"]},
         "set_nontrivial_" + subject: sorted(distinct_nt),
@@ -1230,6 +1248,7 @@ class Check:
             "operations_executed": acc.get("steps", {}),
             "abstract_stack_histories_saturation_by_length": saturation,
             "generator_probes": acc.get("probes", {}),
+            "huge_histories_abandoned_at_their_wall_cap": {"count": acc.get("abandoned_slow_histories", 0), "note": "a history of more than 2000 operations that runs longer than 20 s is abandoned and counted, not judged: speed on a 100 000-item stack is not C09's subject"},
             "hypothesis_machines": acc.get("hypothesis", {}),
             "fault_kinds": {"rollback (restore) and release (drop) as generated operations": "counted inside operations_executed; no other fault kind applies: single thread, no clock, no I/O"},
             "schedule_space": "trivial (single thread); the search is over operation histories only",
